@@ -1,6 +1,7 @@
 package exec
 
 import (
+	"strings"
 	"fmt"
 	"go/constant"
 	"go/token"
@@ -294,6 +295,17 @@ func (p *Path) callValue(fnv Value, args []Value, caller *frame, site ssa.CallIn
 	fn := f.Fn
 	if p.H.ufSet != nil && p.H.ufSet[fn.String()] {
 		return p.callUF(fn, args)
+	}
+	if p.H.Summaries != nil && p.inInit == 0 {
+		if repl, ok := p.H.Summaries[fn.String()]; ok {
+			i := strings.LastIndex(repl, ".")
+			pkg := p.E.Prog.ImportedPackage(repl[:i])
+			if pkg == nil || pkg.Func(repl[i+1:]) == nil {
+				p.unsupported("summary function %s not found", repl)
+			}
+			p.stubs["summary: "+fn.String()+" replaced by "+repl+" (proved equal by another harness of this property)"] = true
+			return p.callFunction(pkg.Func(repl[i+1:]), args, nil, caller)
+		}
 	}
 	if h := p.E.intrinsic(fn); h != nil {
 		return h(p, caller, fn, args, site)
